@@ -100,7 +100,6 @@ func batchKind(reqs []Req) (launch bool, mixed bool) {
 // Observe is called after every command with the result the real DB returned
 // and the dumps before and after.
 func (o *Oracle) Observe(idx int, op Op, res string, pre, post *Dump, db sm.IStateMachine) {
-	o.Ops = append(o.Ops, op)
 	switch op.Op {
 	case "tick":
 		o.tick(idx, res, pre, post, db)
